@@ -407,7 +407,7 @@ def run(tier):
     from checks import C07
     C07.parser_machine()
     jobs_a = list(SUGAR.items()) + (list(SUGAR_THOROUGH.items()) if tier == "thorough" else [])
-    width = 6 if tier == "quick" else 9
+    width = 6 if tier == "quick" else 8
     jobs_b = []
     for name, text in LAYOUT.items():
         toks = C07.native_tokens_of(art["replay"], text); sites = layout_sites(toks)
